@@ -127,11 +127,14 @@ Record lcase := {
 Definition mkl (id : int) (rt : lroute) (doc : int) (field ty : string) (o : lobs) : lcase :=
   {| l_id := id; l_route := rt; l_doc := doc; l_field := field; l_type := ty; l_obs := o |}.
 
-Definition json_parser : parser unit schema_doc unit :=
-  {| ps_parse_claim := fun _ _ => Panic "not-used";
+(* json.Parser behind the processor: C = credential, S = schema document, Opt = options pointer *)
+Definition json_parser (O : oracles) : parser cred schema_doc (option opts) :=
+  {| ps_parse_claim := parser_parse_claim O;
      ps_slot_index := get_field_slot_index |}.
-Definition proc_with (p : option (parser unit schema_doc unit)) : processor unit schema_doc unit unit :=
+Definition proc_with (p : option (parser cred schema_doc (option opts)))
+  : processor cred schema_doc unit (option opts) :=
   {| pr_validator := None; pr_loader := None; pr_parser := p |}.
+Definition no_oracles : oracles := {| keccak := fun _ => (-1)%Z; did_to_id := fun _ => None |}.
 
 Definition run_lookup (docs : list schema_doc) (c : lcase) : res Z :=
   match nth_error docs (nat_of_int (l_doc c)) with
@@ -139,7 +142,7 @@ Definition run_lookup (docs : list schema_doc) (c : lcase) : res Z :=
   | Some d =>
     match l_route c with
     | RParser => get_field_slot_index (l_field c) (l_type c) d
-    | RFacade => facade_slot_index _ _ _ _ (proc_with (Some json_parser)) (l_field c) (l_type c) d
+    | RFacade => facade_slot_index _ _ _ _ (proc_with (Some (json_parser no_oracles))) (l_field c) (l_type c) d
     | RFacadeNoParser => facade_slot_index _ _ _ _ (proc_with None) (l_field c) (l_type c) d
     end
   end.
@@ -184,3 +187,24 @@ Definition acase_ok (r : raw_oracles) (creds : list cred) (docs : list schema_do
 Definition amismatches (r : raw_oracles) (creds : list cred) (docs : list schema_doc) (cs : list acase)
   : list int :=
   fold_right (fun a acc => if acase_ok r creds docs a then acc else a_id a :: acc) [] cs.
+
+(* ---- C17: ParseClaim through the processor facade vs the parser called directly ---- *)
+Record fcase := { f_id : int; f_route : lroute; f_cred : int; f_opts : option opts; f_obs : cobs }.
+Definition mkf (id : int) (rt : lroute) (cr : int) (o : option opts) (ob : cobs) : fcase :=
+  {| f_id := id; f_route := rt; f_cred := cr; f_opts := o; f_obs := ob |}.
+
+Definition run_parse_claim (r : raw_oracles) (creds : list cred) (c : fcase) : res claim :=
+  match nth_error creds (nat_of_int (f_cred c)) with
+  | None => Panic "bad-credential-index"
+  | Some cr =>
+    if negb (oracles_cover r cr) then Panic "oracle-miss" else
+    let O := mk_oracles r in
+    match f_route c with
+    | RParser => parser_parse_claim O cr (f_opts c)
+    | RFacade => facade_parse_claim _ _ _ _ (proc_with (Some (json_parser O))) cr (f_opts c)
+    | RFacadeNoParser => facade_parse_claim _ _ _ _ (proc_with None) cr (f_opts c)
+    end
+  end.
+
+Definition fmismatches (r : raw_oracles) (creds : list cred) (cs : list fcase) : list int :=
+  fold_right (fun c acc => if obs_agree (run_parse_claim r creds c) (f_obs c) then acc else f_id c :: acc) [] cs.
